@@ -20,7 +20,7 @@ RULE = ("seeded pieces laid out as bars (through the real sequences_split_bars w
         "each call the state dictionary must say: clock = sum of bar lengths consumed, in-bar clock 0, remaining capacity a whole "
         "bar. Non-trivial: >= 2 call groups and a note after the first group.")
 PLAN = {"quick": {"cases": 700, "jobs": 4, "timeout": 900},
-        "thorough": {"cases": 20000, "jobs": 16, "timeout": 3000, "budget_s": 420}}
+        "thorough": {"cases": 200000, "jobs": 16, "timeout": 3000, "budget_s": 360}}
 FLOORS = {"quick": {"c03.partitions_compared": 6000, "c03.state_checked": 15000, "#c03.flags.": 16, "c03.signature_change": 100,
                     "c03.empty_bar": 100},
           "thorough": {"c03.partitions_compared": 300000, "#c03.flags.": 16}}
